@@ -15,16 +15,28 @@ class Pat:
             return True
         if not self.via_let:
             return False
+        depth = getattr(ctx, 'via_depth', 0)
+        if depth >= 4:
+            return False
         e2 = strip(e)
-        if isinstance(e2, dict) and e2.get('k') == 'local':
+        if not isinstance(e2, dict):
+            return False
+        alts = []
+        if e2.get('k') == 'local':
             inits = unique_inits(ctx, e2['name'])
-            depth = getattr(ctx, 'via_depth', 0)
-            if len(inits) == 1 and depth < 3:
-                ctx.via_depth = depth + 1
-                try:
-                    return self.m0(ctx, inits[0])
-                finally:
-                    ctx.via_depth = depth
+            if len(inits) == 1:
+                alts.append((inits[0], ctx))
+        elif e2.get('k') in ('call', 'mcall'):
+            ih = inline_call(ctx, e2)
+            if ih is not None:
+                alts.append(ih)
+        for a_e, a_ctx in alts:
+            a_ctx.via_depth = depth + 1
+            try:
+                if self.m(a_ctx, a_e):
+                    return True
+            finally:
+                a_ctx.via_depth = depth
         return False
 
     def m0(self, ctx, e):
@@ -43,6 +55,37 @@ def unique_inits(ctx, name):
             seen.add(c)
             res.append(i)
     return res
+
+
+def inline_call(ctx, e):
+    """a call of a crate-local function whose body ends in a tail expression: (that expression with
+    the parameters replaced by the arguments, context in which the helper's own lets are visible)"""
+    if e.get('k') == 'call' and e['f'].get('k') == 'path':
+        d = e['f'].get('def')
+        cargs = list(e['args'])
+    elif e.get('k') == 'mcall':
+        d = e.get('def')
+        cargs = [e['recv']] + list(e['args'])
+    else:
+        return None
+    h2 = ctx.facts.hir.get(d) if d else None
+    if h2 is None or d not in ctx.facts.hir:
+        return None
+    body = h2['body']
+    tail = body.get('expr') if body.get('k') == 'block' else body
+    if tail is None:
+        return None
+    mapping = H.param_mapping(h2, cargs)
+    c2 = Ctx(ctx.facts, None, None)
+    inits = {}
+    for k, v in H.binding_inits(h2).items():
+        inits[k] = [H.subst(i, mapping) for i in v]
+    for k, v in ctx.inits.items():
+        inits.setdefault(k, v)
+    c2.inits = inits
+    c2.names = (ctx.names or set()) | all_names(h2) if ctx.names is not None else None
+    c2.env = ctx.env
+    return (H.subst(tail, mapping), c2)
 
 
 def strip(e, keep_try=False):
@@ -331,6 +374,7 @@ class CALLARG(Pat):
 
 class TRY(Pat):
     """`p?`"""
+    via_let = True
 
     def __init__(self, a):
         self.a = a
